@@ -1,1 +1,27 @@
-// harness code mounted in serde_avro_fast (see DESIGN.md)
+// Mounted in serde_avro_fast::ser — access to the buffer pools of SerializerConfig (C14)
+use super::*;
+
+pub(crate) fn pool_sizes(c: &SerializerConfig<'_>) -> (usize, usize) {
+	(c.buffers.field_reordering_buffers.len(), c.buffers.field_reordering_super_buffers.len())
+}
+/// representation invariant of the pools: every pooled buffer is empty (what every `pop` asserts)
+pub(crate) fn pool_invariant(c: &SerializerConfig<'_>) -> bool {
+	let mut i = 0;
+	while i < c.buffers.field_reordering_buffers.len() {
+		if !c.buffers.field_reordering_buffers[i].is_empty() {
+			return false;
+		}
+		i += 1;
+	}
+	i = 0;
+	while i < c.buffers.field_reordering_super_buffers.len() {
+		if !c.buffers.field_reordering_super_buffers[i].is_empty() {
+			return false;
+		}
+		i += 1;
+	}
+	true
+}
+
+/// re-export of the serializer harness helpers (the `serializer` module itself is private to `ser`)
+pub(crate) use super::serializer::verif as sz;
